@@ -120,14 +120,26 @@ def run(tier, replay=None):
     n_seq, max_len = (200, 12) if tier == 'quick' else (12000, 40)
     seqs = S.make_sequences(corpus, pool, n_seq, max_len, rng)
     rows = []
+    pool_names = {k: sorted({(v['object'], v['opcode']) for v in vs}) for k, vs in pool.items()}
+    mism = {}
     for s in seqs:
         stream = ''.join(v['hex'] for v in s['frames'])
         rows.append([s['id'] + '.enum', 'W.stream', s['version'], s['dir'], 'enum', 'plain', '-', stream])
         names = ','.join(v['object'] for v in s['frames'])
         rows.append([s['id'] + '.expect', 'W.stream', s['version'], s['dir'], 'expect', 'plain', names, stream])
+        # the same history over a blocking transport that delivers short reads (a socket may return fewer bytes than asked for)
+        rows.append([s['id'] + '.enum-short', 'W.stream', s['version'], s['dir'], 'enum', 'plain;chunk=' + S.chunk_pattern(rng), '-', stream])
+        rows.append([s['id'] + '.expect-short', 'W.stream', s['version'], s['dir'], 'expect', 'plain;chunk=' + S.chunk_pattern(rng), names, stream])
+        # typed readers asked for a different message: Opcode error, and the rejected frame is consumed all the same
+        mnames, mis = S.mismatch_names(s, pool_names[(s['version'], s['dir'])], rng)
+        if mis:
+            mism[s['id']] = mis
+            rows.append([s['id'] + '.expect-mismatch', 'W.stream', s['version'], s['dir'], 'expect', 'plain', mnames, stream])
     evc = common.run_driver(binary, rows, 'c02c', timeout=60)
     for s in seqs:
-        for reader in ('enum', 'expect'):
+        for reader in ('enum', 'expect', 'enum-short', 'expect-short', 'expect-mismatch'):
+            if reader == 'expect-mismatch' and s['id'] not in mism:
+                continue
             e = evc.get(f"{s['id']}.{reader}")
             if e is None:
                 chk.inconclusive.append(f"{s['id']}.{reader}: no event")
@@ -135,7 +147,7 @@ def run(tier, replay=None):
             if e.get('result') != 'done':
                 why = {'reason': str(e.get('result')), 'detail': str(e.get('panic_at') or '')}
             else:
-                why = S.judge_stream(s, e.get('msgs') or [])
+                why = S.judge_stream(s, e.get('msgs') or [], mismatched=mism.get(s['id'], ()) if reader == 'expect-mismatch' else ())
             chk.count(f'c:{reader}:' + ('ok' if why is None else 'bad'))
             shape = tuple(min(len(v['hex']) // 2, 0x10000) >> 8 for v in s['frames'])
             if why is None:
